@@ -142,8 +142,13 @@ def roundtrip_case(rep, rng, thorough, tmpdir):
 		with warnings.catch_warnings():
 			warnings.simplefilter('ignore')
 			net = build()
-			if with_sv:
-				simulate_dump(net, T)
+			used = (not with_sv) and rng.random() < .4
+			if with_sv or used:
+				# 'used': the network has been simulated before it is saved WITHOUT its state variables - run-time attributes that are
+				# not state variables (e.g. whether a disruption process is currently disrupted) must survive
+				simulate_dump(net, T, seed=rng.randint(1, 50))
+			if used:
+				rep.count('roundtrip:saved-after-a-simulation-without-state-vars')
 			reference = copy.deepcopy(net)
 			if via == 'dict':
 				d = net.to_dict()
